@@ -241,6 +241,79 @@ theorem cif_transform (AN ANinv U : Matrix (Fin 3) (Fin 3) K) (h : ANinv * AN = 
       = (AN * ANinv) * U * (ANinv.transpose * AN.transpose) := by simp only [Matrix.mul_assoc]
     _ = U := by rw [h', ht, Matrix.one_mul, Matrix.mul_one]
 
+/-! ### frequency window, mesh normalisation, trace -/
+
+/-- **window = restriction of the sum**: the frequency window only selects which modes enter -/
+theorem tdm_window_restrict (I : TDIn np nq K) (i : Fin np) (a b : Fin 3) :
+    tdm I i a b = (∑ c ∈ (Finset.univ : Finset (Fin nq × Fin (np * 3))).filter (fun c => valid I.fmin I.fmax (I.f c.1 c.2) = true),
+        I.q2 c.1 c.2 * ((I.e c.1 (row i a) c.2 * Cx.conj (I.e c.1 (row i b) c.2)).re / I.mass i)) / (nq : K) := by
+  rw [tdm_eq, Finset.sum_filter, Fintype.sum_prod_type]
+
+/-- adjacent windows add up (the windows are open: no sampled frequency may sit on the common edge) -/
+theorem tdm_window_additive (I : TDIn np nq K) (fmid fmax : K) (hlo : I.fmin ≤ fmid) (hhi : fmid ≤ fmax)
+    (hedge : ∀ q ν, I.f q ν ≠ fmid) (i : Fin np) (a b : Fin 3) :
+    tdm { I with fmax := some fmax } i a b
+      = tdm { I with fmax := some fmid } i a b + tdm { I with fmin := fmid, fmax := some fmax } i a b := by
+  simp only [tdm_eq]
+  rw [← add_div, ← Finset.sum_add_distrib]
+  congr 1
+  apply Finset.sum_congr rfl; intro q _
+  rw [← Finset.sum_add_distrib]
+  apply Finset.sum_congr rfl; intro ν _
+  have hne := hedge q ν
+  simp only [valid, Bool.and_eq_true, decide_eq_true_eq]
+  by_cases h1 : I.f q ν < fmid
+  · have h2 : I.f q ν < fmax := lt_of_lt_of_le h1 hhi
+    have h3 : ¬ fmid < I.f q ν := not_lt.2 h1.le
+    by_cases h0 : I.fmin < I.f q ν <;> simp [h0, h1, h2, h3]
+  · have h3 : fmid < I.f q ν := lt_of_le_of_ne (not_lt.1 h1) (Ne.symm hne)
+    have h0 : I.fmin < I.f q ν := lt_of_le_of_lt hlo h3
+    by_cases h2 : I.f q ν < fmax <;> simp [h0, h1, h2, h3]
+
+/-- **normalisation over the mesh**: if every q-point carries the same data the average is the single-point value -/
+theorem tdm_normalisation (I : TDIn np nq K) (hnq : 0 < nq) (q0 : Fin nq)
+    (hf : ∀ q ν, I.f q ν = I.f q0 ν) (he : ∀ q r ν, I.e q r ν = I.e q0 r ν) (hq : ∀ q ν, I.q2 q ν = I.q2 q0 ν)
+    (i : Fin np) (a b : Fin 3) :
+    tdm I i a b = ∑ ν, if valid I.fmin I.fmax (I.f q0 ν) = true then
+        I.q2 q0 ν * ((I.e q0 (row i a) ν * Cx.conj (I.e q0 (row i b) ν)).re / I.mass i) else 0 := by
+  rw [tdm_eq]
+  simp only [hf, he, hq]
+  rw [Finset.sum_const, Finset.card_univ, Fintype.card_fin, nsmul_eq_mul]
+  have : (nq : K) ≠ 0 := Nat.cast_ne_zero.2 hnq.ne'
+  field_simp
+
+/-- **mass-weighted trace**: for normalised eigenvectors `Σ_i m_i tr U_i = (1/N_q) Σ_{sampled modes} Q2` -/
+theorem msd_mass_trace (I : TDIn np nq K) (hm : ∀ i, I.mass i ≠ 0)
+    (hnorm : ∀ q ν, (∑ r, ((I.e q r ν).re * (I.e q r ν).re + (I.e q r ν).im * (I.e q r ν).im)) = 1) :
+    (∑ i, I.mass i * ∑ a, msd I i a)
+      = (∑ q, ∑ ν, if valid I.fmin I.fmax (I.f q ν) = true then I.q2 q ν else 0) / (nq : K) := by
+  let G : Fin (np * 3) → K := fun r => ∑ q, ∑ ν, if valid I.fmin I.fmax (I.f q ν) = true then
+      I.q2 q ν * ((I.e q r ν).re * (I.e q r ν).re + (I.e q r ν).im * (I.e q r ν).im) else 0
+  have h1 : ∀ i a, I.mass i * msd I i a = G (row i a) / (nq : K) := by
+    intro i a
+    unfold msd
+    simp only [sumFin_eq, G]
+    rw [← mul_div_assoc, Finset.mul_sum]
+    congr 1
+    apply Finset.sum_congr rfl; intro q _
+    rw [Finset.mul_sum]
+    apply Finset.sum_congr rfl; intro ν _
+    have := hm i
+    split
+    · field_simp
+    · simp
+  simp only [Finset.mul_sum, h1]
+  rw [sum_row (fun r => G r / (nq : K)), ← Finset.sum_div]
+  congr 1
+  simp only [G]
+  rw [Finset.sum_comm]
+  apply Finset.sum_congr rfl; intro q _
+  rw [Finset.sum_comm]
+  apply Finset.sum_congr rfl; intro ν _
+  split
+  · rw [← Finset.mul_sum, hnorm, mul_one]
+  · simp
+
 /-! ### the Bose factor and the guard temperature (finding F13) -/
 
 /-- above the guard the code's `Q2` is the canonical `ħ(n + ½)/ω` -/
@@ -852,6 +925,10 @@ end PhononModel.C19
 #print axioms PhononModel.C19.msd_diag
 #print axioms PhononModel.C19.msd_projection
 #print axioms PhononModel.C19.cif_transform
+#print axioms PhononModel.C19.tdm_window_restrict
+#print axioms PhononModel.C19.tdm_window_additive
+#print axioms PhononModel.C19.tdm_normalisation
+#print axioms PhononModel.C19.msd_mass_trace
 #print axioms PhononModel.C19.q2_canonical_above_guard
 #print axioms PhononModel.C19.q2_below_guard
 #print axioms PhononModel.C19.population_dropped_witness
